@@ -26,6 +26,8 @@ pub fn fault_name(f: &WireFault) -> &'static str {
         WireFault::PkFieldByte { .. } => "pk-setfield-byte",
         WireFault::PkTruncateTo { .. } => "pk-truncate",
         WireFault::PkExtend { .. } => "pk-extend",
+        WireFault::SigPadTo { .. } => "sig-pad-to",
+        WireFault::PkPadTo { .. } => "pk-pad-to",
         WireFault::MsgBit { .. } => "msg-bitflip",
         WireFault::MsgTruncate { .. } => "msg-truncate",
         WireFault::MsgExtend { .. } => "msg-extend",
@@ -192,6 +194,20 @@ pub fn apply_fault(w: &World, env: usize, fault: &WireFault) -> Mutated {
         }
         WireFault::PkTruncateTo { len } => m.pk.truncate(*len),
         WireFault::PkExtend { bytes } => m.pk.extend_from_slice(bytes),
+        WireFault::SigPadTo { len, val } => {
+            if *len > m.sig.len() {
+                m.sig.resize(*len, *val);
+            } else {
+                m.skipped = true;
+            }
+        }
+        WireFault::PkPadTo { len, val } => {
+            if *len > m.pk.len() {
+                m.pk.resize(*len, *val);
+            } else {
+                m.skipped = true;
+            }
+        }
         WireFault::MsgBit { pos, bit } => {
             if m.msg.is_empty() {
                 m.msg.push(1 << (bit % 8));
